@@ -435,6 +435,11 @@ func GenFlattenCase(d *D, cfg BundleCfg) *FlattenCase {
 		if x.doc == "" {
 			continue
 		}
+		if CollisionBase(x.name, true) == "" {
+			// a punctuation-only name mangles to the empty string: the library imports it under the
+			// conflict name "oaiGen", i.e. treats it like a name collision
+			g.refFree[x] = true
+		}
 		for _, y := range all {
 			if x == y {
 				continue
